@@ -21,9 +21,11 @@ open PdfVerif PdfVerif.SimpleFont
 
 /-! ### AGL section 2 -/
 
+/-- `0`-`9`, `A`-`F` (by code point). -/
 def upperHexVal (c : Char) : Option Nat :=
-  if '0' ≤ c ∧ c ≤ '9' then some (c.toNat - 48)
-  else if 'A' ≤ c ∧ c ≤ 'F' then some (c.toNat - 55)
+  let n := c.toNat
+  if 48 ≤ n ∧ n ≤ 57 then some (n - 48)
+  else if 65 ≤ n ∧ n ≤ 70 then some (n - 55)
   else none
 
 def isUpperHex (c : Char) : Bool := (upperHexVal c).isSome
@@ -41,21 +43,21 @@ def fours : List Char → List (List Char)
 
 /-- "uni" followed by uppercase hex digits, length a multiple of four, each group 0000-D7FF or E000-FFFF. -/
 def uniForm (c : Name) : Option Text :=
-  match c with
-  | 'u' :: 'n' :: 'i' :: r =>
+  if c.take 3 = ['u', 'n', 'i'] then
+    let r := c.drop 3
     if r.all isUpperHex && r.length % 4 == 0 then
       let vs := (fours r).map upperHexNum
       if vs.all isScalar then some vs else none
     else none
-  | _ => none
+  else none
 
 /-- "u" followed by four to six uppercase hex digits denoting a scalar value. -/
 def uForm (c : Name) : Option Text :=
-  match c with
-  | 'u' :: r =>
+  if c.take 1 = ['u'] then
+    let r := c.drop 1
     if r.all isUpperHex && 4 ≤ r.length && r.length ≤ 6 && isScalar (upperHexNum r) then some [upperHexNum r]
     else none
-  | _ => none
+  else none
 
 /-- Step 3 for one component. -/
 def aglComp (gl : GlyphList) (c : Name) : Text :=
@@ -88,16 +90,14 @@ def aglText (gl : GlyphList) : Option Name → Option Text
 
 /-! ### Names outside the judged domain (see docs/C06.md) -/
 
-def hasLowerHex (s : List Char) : Bool := s.any (fun c => 'a' ≤ c && c ≤ 'f')
+def hasLowerHex (s : List Char) : Bool := s.any (fun c => 97 ≤ c.toNat && c.toNat ≤ 102)
 
 /-- A component that pdfminer (pinned by its unit tests) accepts although AGL does not: `uni`/`u`
 followed by hexadecimal digits of which at least one is lower case. -/
 def lenientComp (gl : GlyphList) (c : Name) : Bool :=
   (glLookup gl c).isNone &&
-  (match c with
-   | 'u' :: 'n' :: 'i' :: r => allHex r && hasLowerHex r
-   | 'u' :: r => allHex r && hasLowerHex r
-   | _ => false)
+  ((c.take 3 == ['u', 'n', 'i'] && allHex (c.drop 3) && hasLowerHex (c.drop 3)) ||
+   (c.take 1 == ['u'] && allHex (c.drop 1) && hasLowerHex (c.drop 1)))
 
 /-- The judged domain of glyph names: no lenient component, and not a multi-component name in which
 some but not all components have a value. -/
